@@ -351,6 +351,8 @@ pub async fn server_pipeline(
         let sinks = sinks.clone();
         async move {
             app.push(Ev::Handshake);
+            // a slow handshake service (gate closed by the check)
+            app.wait(G_HS, 0).await;
             match hs {
                 Hs5::Accept { keep_alive, max_send } => {
                     sinks.borrow_mut().push(h.sink());
